@@ -247,6 +247,19 @@ func faults() []fault {
 			}
 			pos := rng.IntN(len(p.pad))
 			p.pad[pos] = byte(1 + rng.IntN(255))
+			// several non-zero bytes, also chosen so that they cancel out under addition or xor
+			if len(p.pad) >= 2 && rng.IntN(2) == 0 {
+				q := (pos + 1 + rng.IntN(len(p.pad)-1)) % len(p.pad)
+				switch rng.IntN(3) {
+				case 0:
+					p.pad[q] = p.pad[pos] // xor of all bytes is zero
+				case 1:
+					p.pad[q] = byte(256 - int(p.pad[pos])) // sum of all bytes is zero mod 256
+				default:
+					p.pad[q] = byte(1 + rng.IntN(255))
+				}
+				return fmt.Sprintf("padlen=%d pos=%d,%d values=%02x,%02x", len(p.pad), pos, q, p.pad[pos], p.pad[q]), true
+			}
 			return fmt.Sprintf("padlen=%d pos=%d", len(p.pad), pos), true
 		}},
 		{rule: "R8:marker-length-prefix-exceeds-body", allowed: illegalOrDecode, needKey: true, apply: func(rng *mrand.Rand, p *plan) (string, bool) {
@@ -305,6 +318,25 @@ func faults() []fault {
 			ts = append(ts[:i+1], ts[i:]...)
 			p.marker = tlswire.OuterExtensions(ts).Data
 			return "", true
+		}},
+		{rule: "R10:repeated-reference-outer-repeats-too", allowed: illegalOrDecode, needKey: true, apply: func(rng *mrand.Rand, p *plan) (string, bool) {
+			// the list names one type twice and the outer hello carries that extension twice as well, so that
+			// every reference can be resolved in order: still a repeated reference
+			if p.n == 0 {
+				return "", false
+			}
+			ts := typesOf(p)
+			i := rng.IntN(len(ts))
+			t := ts[i]
+			ts = append(ts[:i+1], ts[i:]...)
+			p.marker = tlswire.OuterExtensions(ts).Data
+			p.post = func(h *tlswire.ClientHello) {
+				if j := h.Find(t); j >= 0 {
+					e := tlswire.Ext{Type: t, Data: append([]byte{}, h.Exts[j].Data...)}
+					h.Exts = append(h.Exts[:j+1:j+1], append([]tlswire.Ext{e}, h.Exts[j+1:]...)...)
+				}
+			}
+			return fmt.Sprintf("type=%d", t), true
 		}},
 		{rule: "R11:reference-missing-from-outer", allowed: illegal, needKey: true, apply: func(rng *mrand.Rand, p *plan) (string, bool) {
 			if p.n == 0 {
@@ -587,8 +619,28 @@ func TestCheck(t *testing.T) {
 			rec, frag = fragment(rng, rec)
 			r.Count("faulty_retried_hellos_sent_fragmented", 1)
 		}
-		c := map[string]any{"rule": f.rule, "param": param, "phase": "retry", "framing": frag, "second_record": mon.Hex(rec)}
+		// records a client may send between the HelloRetryRequest and its second hello: the compatibility
+		// change_cipher_spec and warning alerts. Neither ends the inspection of the handshake.
+		var prefix [][]byte
+		switch (i / 2) % 4 {
+		case 1:
+			prefix = [][]byte{tlswire.Record(20, 0x0303, []byte{1})}
+		case 2:
+			prefix = [][]byte{tlswire.Record(21, 0x0303, []byte{1, 90})}
+		case 3:
+			prefix = [][]byte{tlswire.Record(20, 0x0303, []byte{1}), tlswire.Record(21, 0x0303, []byte{1, 90})}
+		}
+		c := map[string]any{"rule": f.rule, "param": param, "phase": "retry", "framing": frag, "second_record": mon.Hex(rec), "records_before_it": len(prefix)}
 		r.Guard("retry", i, f.rule+":retry", c, func() {
+			for _, pr := range prefix {
+				if g, err := flow.Client(pr); err != nil || !bytes.Equal(g, pr) {
+					r.Violate("retry", i, "retry:prefix-record-not-forwarded", fmt.Sprintf("record %x sent before the second hello: read %x, %v", pr, g, err), c)
+					return
+				}
+			}
+			if len(prefix) > 0 {
+				r.Count("faulty_retried_hellos_after_ccs_or_alert", 1)
+			}
 			wOff := len(flow.Tap.Written())
 			got, err := flow.Client(rec)
 			cls := echrun.Class(err)
